@@ -232,6 +232,9 @@ func runC15(c *kit.Ctx) {
 		})
 	}
 
+	// "never wrong data": what decompression hands out is not recycled under the caller
+	noResponseBufferRecycling(c)
+
 	// ---- R3 ---------------------------------------------------------------
 	c.StartRule("R3", "reader bounds and progress", 4)
 	{
@@ -247,6 +250,99 @@ func runC15(c *kit.Ctx) {
 			}
 		}
 		k5Loops(c, eng, dec)
+		// writer progress: the chunk loop goes round again only after a Read that consumed something
+		// (a zero-length staging buffer - a 0-byte payload - consumes nothing and reports no EOF
+		// while the buffer list still has empty elements)
+		reads := kit.Calls(comp, "(*net.Buffers).Read")
+		if len(reads) == 0 {
+			c.Unk(comp, "writer-progress", comp.Pos(), "compressCellblocks no longer drains its input through net.Buffers.Read")
+		}
+		for _, rd := range reads {
+			n := kit.ExtractOf(rd.Value(), 0)
+			e := kit.PathFrom(rd.(ssa.Instruction), kit.PathQuery{
+				Target: func(in ssa.Instruction) bool { return in == rd.(ssa.Instruction) },
+				SkipEdge: func(from, to *ssa.BasicBlock) bool {
+					for _, f := range kit.EdgeFacts(from, to) {
+						cmp, ok := kit.CanonCmp(f.Cond, f.Pol)
+						if !ok || n == nil || !kit.Same(cmp.X, n) {
+							continue
+						}
+						if k, ok := kit.ConstInt(cmp.Y); ok && (cmp.Op == token.NEQ && k == 0 || cmp.Op == token.GTR && k >= 0 || cmp.Op == token.GEQ && k >= 1) {
+							return true
+						}
+					}
+					return false
+				},
+				IgnorePanics: true,
+			})
+			// paths that stay in the loop without the n != 0 fact
+			c.Check(e == nil || n == nil && false, comp, "writer-progress", rd.Pos(), "the loop reads again only on the edge n != 0",
+				"the chunk loop can go round again after a Read that consumed nothing: with a 0-byte payload given as a non-empty list of empty buffers the staging buffer has length 0, Read returns (0, nil) forever, and the writer emits empty chunks without end: "+c.BlockPath(e))
+		}
+		// reader acceptance: the declared uncompressed block length is checked against what was decoded,
+		// never against how much input there is (the framing is codec-agnostic: no ratio is implied)
+		{
+			var blockLens []ssa.Value
+			kit.Instrs(dec, func(in ssa.Instruction) {
+				bo, ok := in.(*ssa.BinOp)
+				if !ok {
+					return
+				}
+				switch bo.Op {
+				case token.LSS, token.GTR, token.LEQ, token.GEQ, token.EQL, token.NEQ:
+				default:
+					return
+				}
+				for _, side := range []ssa.Value{bo.X, bo.Y} {
+					sv := kit.Root(side)
+					for {
+						cv, ok := sv.(*ssa.Convert)
+						if !ok {
+							break
+						}
+						sv = kit.Root(cv.X)
+					}
+					ex, ok := sv.(*ssa.Extract)
+					if !ok || ex.Index != 0 {
+						continue
+					}
+					if call, ok := ex.Tuple.(*ssa.Call); ok && kit.StaticCallee(call) == readU {
+						blockLens = append(blockLens, side)
+						other := bo.Y
+						if side == bo.Y {
+							other = bo.X
+						}
+						fromLen := false
+						seen := map[ssa.Value]bool{}
+						var walk func(v ssa.Value)
+						walk = func(v ssa.Value) {
+							if seen[v] {
+								return
+							}
+							seen[v] = true
+							switch x := v.(type) {
+							case *ssa.BinOp:
+								walk(x.X)
+								walk(x.Y)
+							case *ssa.Convert:
+								walk(x.X)
+							case *ssa.Call:
+								if kit.CalleeName(x) == "builtin.len" || kit.CalleeName(x) == "builtin.cap" {
+									fromLen = true
+								}
+							}
+						}
+						walk(other)
+						// also the declared side may itself be scaled: walk it for len() too
+						c.Check(!fromLen, dec, "declared-length-vs-input", bo.Pos(), "a length read from the stream is compared with decoded/declared lengths only",
+							"a length field read from the stream is accepted or rejected by comparing it with the amount of input: the block framing implies no compression ratio, so well-formed streams of highly compressible data are refused")
+					}
+				}
+			})
+			if len(blockLens) == 0 {
+				c.Unk(dec, "declared-length-vs-input", dec.Pos(), "no comparison of a declared length found in decompressCellblocks")
+			}
+		}
 	}
 
 	// ---- R4 ---------------------------------------------------------------
